@@ -87,8 +87,12 @@ def run(tier, rep):
         for r in pool.imap("vf.props.c02", "family_task", tasks):
             merge(st, r)
         report(rep, "family_policies_rtf_drivers_d0", st, 0, JUDGE, family=True)
-        out = explore_many(pool, deep, bound, JUDGE)
-        report(rep, "schedules", out, bound, JUDGE)
+        out = explore_many(pool, deep, 1, JUDGE)
+        report(rep, "schedules_d1", out, 1, JUDGE)
+        if tier == "thorough":
+            d2 = {k: v for k, v in deep.items() if k[0] in ("H1", "H3", "H2.BUFFER") and k[2] == "rtf0" and k[3] in ("step", "run")}
+            out = explore_many(pool, d2, 2, JUDGE)
+            report(rep, "schedules_d2", out, 2, JUDGE)
         if g2:
             out = explore_many(pool, g2, 1, JUDGE)
             report(rep, "schedules_G2_line_level", out, 1, JUDGE)
